@@ -289,6 +289,23 @@ def gen_sched(rng, pre_choices=(0,)):
     return sc
 
 
+def gen_sharedrota(rng):
+    """two (or three) nodes given the very same Schedule object: each must follow the timetable on its own"""
+    sc = gen_sched(rng, pre_choices=(0, 0, 1, 2, 3))
+    while sc["N"] < 2:
+        sc = gen_sched(rng, pre_choices=(0, 0, 1, 2, 3))
+    first = next((nd for nd in sc["nodes"] if nd.get("kind") == "sched"), None)
+    for nd in sc["nodes"]:
+        nd["kind"] = "sched"
+        nd["c"] = 0
+        nd["sched"] = copy.deepcopy(first["sched"])
+    for n in range(sc["N"]):
+        for k in range(sc["K"]):
+            if not sc["arrS"][n][k]:
+                sc["arrS"][n][k] = samples(rng, 1, 4, 2)
+    return sc
+
+
 def gen_schedblock(rng):
     """schedules (any pre-emption option) feeding capacitated nodes: blocking meets shift changes.
     Contains the triggers of findings F4 (pre-emptive shift end while blocked) and F7."""
@@ -431,6 +448,46 @@ def gen_slotpreblock(rng):
     if not any(sl["sizes"]):
         sl["sizes"][0] = 2
     sc["svcS"][0][0] = samples(rng, 2, 7, 2)
+    return sc
+
+
+def gen_ccwren(rng):
+    """class change while waiting together with reneging: the patience sampled at arrival keeps running whatever the
+    class becomes"""
+    sc = gen_ccw(rng)
+    K = sc["K"]
+    for nd in sc["nodes"]:
+        nd["pp"] = 0
+    sc["patS"] = [[samples(rng, 2, 9, 2) if rng.random() < 0.8 else [] for _ in range(K)] for n in range(sc["N"])]
+    sc["patS"][0][0] = sc["patS"][0][0] or [3, 6]
+    for k in range(K):
+        sc["svcS"][0][k] = samples(rng, 3, 7, 2)
+    return sc
+
+
+def gen_trkclsren(rng):
+    """per-class trackers with class changes after service followed by reneging downstream"""
+    sc = gen_clsren(rng)
+    sc["tracker"] = rng.choice(["nodeclass", "nodeclass", "system", "node"])
+    sc["observed"] = list(range(sc["N"]))
+    return sc
+
+
+def gen_trkblock3(rng):
+    """blockage-order tracker with two blocking destinations: the released customer is not always the oldest blockage"""
+    sc = gen_tandem(rng, N=3, K=1)
+    sc["prio"] = [0]
+    sc["syscap"] = INF
+    sc["nodes"][0].update({"kind": "std", "c": rng.choice([2, 3]), "qcap": INF})
+    for n in (1, 2):
+        sc["nodes"][n].update({"kind": "std", "c": 1, "qcap": rng.choice([0, 0, 1])})
+    sc["arrS"] = [[samples(rng, 1, 2, 2)], [[]], [[]]]
+    sc["svcS"] = [[samples(rng, 1, 3, 2)], [samples(rng, 3, 8, 2)], [samples(rng, 2, 6, 2)]]
+    sc["route"] = [tm([[0, 2, 2], [0, 0, 0], [0, 0, 0]])]
+    sc.pop("batchS", None)
+    sc["tracker"] = rng.choice(["matrix", "matrix", "naive"])
+    sc["observed"] = [0, 1, 2]
+    sc["T"] = rng.randint(20, 40)
     return sc
 
 
@@ -1203,6 +1260,10 @@ def gen_stopcount(rng):
 
 
 FAMILIES = {
+    "ccwren": gen_ccwren,
+    "trkclsren": gen_trkclsren,
+    "trkblock3": gen_trkblock3,
+    "sharedrota": gen_sharedrota,
     "trkreroute": gen_trkreroute,
     "psprio": gen_psprio,
     "mix2": gen_mix2,
